@@ -1,7 +1,7 @@
 """C03 — lattice relations hold one row per key carrying the least fixed point."""
 from . import core, eng, gen, engcheck
 
-THEOREMS = []
+THEOREMS = ["headLat_spec", "run_lattice_key_unique", "run_lattice_closed", "run_lattice_least", "run_lattice_rel_rows_set", "std_latOrder_maxmin"]
 TRUSTED = ["Lean 4.33.0 kernel", "axioms: propext, Classical.choice, Quot.sound only (audited per theorem)",
            "statement: Props/C03.lean", "model Model/Engine.lean (headLat: look-up in new/delta/total, join_mut in place, re-queue iff changed) with the C16 "
            "lattice model as join_mut; tied by compiled programs with lattice relations over i64 / Dual<i64> / Set<i64> / Option<i64>",
